@@ -47,15 +47,26 @@ def build(ctx, case):
         else:
             init_h = None
 
+        # the LM's own scores are read from the network itself (an evaluation-mode copy), not through the wrapper under test:
+        # state after '</s>' (+ the start line + '</s>'), distribution = decoder(top-layer hidden state), symbol c has vocabulary
+        # index c + 2
+        import torch
+        from pero_ocr.decoding.lm_wrapper import HiddenState
+        net = copy.deepcopy(raw).eval()
+
         def seq(transcript):
-            h = copy.deepcopy(init_h) if init_h is not None else lm.initial_h(1)
-            s = 0.0
-            for c in transcript:
-                s = s + float(lm.log_probs(h)[0][c]) + bonus
-                h = lm.advance_h0(np.asarray([c]), h)
-            if eos:
-                s += float(lm.eos_scores(h)[0])
-            return s, h
+            with torch.no_grad():
+                ins = [net.vocab["</s>"]]
+                if start is not None:
+                    ins = ins + [net.vocab[LETTERS[c]] for c in start] + [net.vocab["</s>"]]
+                _, h = net.model(torch.tensor([ins]), net.model.init_hidden(1))
+                s = 0.0
+                for c in transcript:
+                    s = s + float(net.decoder(h[0][-1])[0, int(c) + 2]) + bonus
+                    _, h = net.model(torch.tensor([[int(c) + 2]]), h)
+                if eos:
+                    s += float(net.decoder(h[0][-1])[0, net.vocab["</s>"]])
+            return s, HiddenState(h)
         tol = 1e-7
     dec = CTCPrefixLogRawNumpyDecoder(letters_for(C), k, lm=lm, lm_scale=scale, insertion_bonus=bonus,
                                       relevant_logits_selector=selector)
@@ -209,7 +220,7 @@ def strat(lm_type):
 
         @st.composite
         def case(draw):
-            fam, M = draw(logprob_matrix(max_T=7, max_C=5, long_lines=(lm_type == "hash"), big_alphabet=(lm_type == "hash")))
+            fam, M = draw(logprob_matrix(max_T=7, max_C=5, long_lines=(lm_type == "hash"), big_alphabet=True))
             C = M.shape[1]
             start = draw(st.none() | st.lists(st.integers(0, C - 2), min_size=0, max_size=3).map(tuple))
             return ((fam, M), draw(st.sampled_from([1, 2, 3, 5, 10, 10000] if lm_type == "hash" else [1, 2, 3, 5, 10])), draw(st.sampled_from(["default", "all"])),
